@@ -113,8 +113,10 @@ FIELD_NAMES = ["position", "normal", "uv", "color", "weights", "indices", "m", "
 
 
 class Gen:
-    def __init__(self, rng, allow_f64=False, allow_rts=True, allow_atomic=True, square_mats_only=False, scalar_kinds=None):
+    def __init__(self, rng, allow_f64=False, allow_rts=True, allow_atomic=True, square_mats_only=False, scalar_kinds=None,
+                 compat16=False):
         self.rng = rng
+        self.compat16 = compat16      # only 16-byte-multiple leafs: the Rust layout equals the WGSL layout
         self.structs = []
         self.allow_f64 = allow_f64
         self.allow_rts = allow_rts
@@ -125,6 +127,10 @@ class Gen:
     def leaf(self):
         r = self.rng
         k = r.random()
+        if self.compat16:
+            if k < 0.75:
+                return Ty("vec", n=4, s=r.choice(self.scalars))
+            return Ty("mat", c=4, r=4, s="f32")
         if k < 0.3:
             return Ty("scalar", s=r.choice(self.scalars + (["f64"] if self.allow_f64 else [])))
         if k < 0.65:
